@@ -312,3 +312,59 @@ package frame
 //@   requires w != nil
 //@   ensures  [same-as-write] logLen() == 1 && logCallee(0, "(*frame.Writer).Write") && logArgIsPtr(0, 0, w) && logArg(0, 1) == any(fr) && err == logRetErr(0)
 //@   modifies ghost:log
+
+// ---------------------------------------------------------------- accessors: each returns the field of its name
+//@ func (V1Frame).GetSystemID
+//@   inline
+//@   ensures  res == f.SystemID
+//@   modifies nothing
+
+//@ func (V1Frame).GetComponentID
+//@   inline
+//@   ensures  res == f.ComponentID
+//@   modifies nothing
+
+//@ func (V1Frame).GetSequenceNumber
+//@   inline
+//@   ensures  res == f.SequenceNumber
+//@   modifies nothing
+
+//@ func (V1Frame).GetMessage
+//@   inline
+//@   ensures  res == f.Message
+//@   modifies nothing
+
+//@ func (V1Frame).GetChecksum
+//@   inline
+//@   ensures  res == f.Checksum
+//@   modifies nothing
+
+//@ func (V2Frame).GetSystemID
+//@   inline
+//@   ensures  res == f.SystemID
+//@   modifies nothing
+
+//@ func (V2Frame).GetComponentID
+//@   inline
+//@   ensures  res == f.ComponentID
+//@   modifies nothing
+
+//@ func (V2Frame).GetSequenceNumber
+//@   inline
+//@   ensures  res == f.SequenceNumber
+//@   modifies nothing
+
+//@ func (V2Frame).GetMessage
+//@   inline
+//@   ensures  res == f.Message
+//@   modifies nothing
+
+//@ func (V2Frame).GetChecksum
+//@   inline
+//@   ensures  res == f.Checksum
+//@   modifies nothing
+
+//@ func NewV2Key
+//@   ensures  [first-32-bytes-copied] res != nil && freshPtr(res) && (forall k int :: 0 <= k && k < 32 && k < len(in) ==> res[k] == in[k]) &&
+//@              (forall k int :: len(in) <= k && k < 32 ==> res[k] == 0)
+//@   modifies nothing
